@@ -45,3 +45,14 @@ known("C08", "payload-longer-than-threshold-on-threshold-enabled-link",
       {"replay": "./check C08 --replay seeded/known/C08-long-payload-threshold-link.json",
        "input": "upload of 1511 random bytes (2208 characters on the wire) in 1024-byte reads; or setBLOBVector of 1377 bytes to a threshold-enabled Also connection",
        "call_site": "indi/transport/buffer.py:Buffer.process -> _cleanup_beginning when data_len > max_buffer_size_before_frontal_cleanup"})
+known("C01", "in-process-client:stale-value:after-a-write-from-inside-a-definition-callback-of-an-earlier-registered-client",
+      "Router.process_message delivers re-entrantly: an in-process client (a driver's snooping client) that reacts to a definition by writing a value "
+      "from inside its callback makes the device publish the update while the definition is still being fanned out; every client registered with "
+      "the router AFTER the reacting one is handed the update first and the older definition afterwards, and keeps the old value although the "
+      "device holds the new one. Clients registered before the reacting one, and socket clients that react after their read returns, are not "
+      "affected. A repair means queueing messages routed during a fan-out until it has finished - a change of the router's re-entrancy "
+      "semantics (nested sends are synchronous today, and the driver's answers to getProperties rely on it) that is not a small patch.",
+      {"replay": "./check C01 --replay seeded/known/C01-reentrant-update-overtakes-definition.json",
+       "history": "three snooping clients follow CAM; the first-registered one has a DefinitionUpdate callback that assigns TXT.E0 = 'new' and submits; "
+                  "a later-registered one sends getProperties device=CAM; it receives setTextVector(new) and then defTextVector(old)",
+       "call_site": "indi/routing/router.py:Router.process_message (nested call from Driver.send_message inside client.message_from_device)"})
